@@ -204,6 +204,7 @@ func runDial(t *testing.T, ksc KScenario, res *KResult) {
 		return
 	}
 	wo := NewWireOracles(w, nodes, res)
+	wo.refusedHello = sc.Cfg.Derive != nil && sc.Cfg.Derive.ISCID != ""
 	wo.on = on
 	w.StartDriver()
 	defer func() {
@@ -260,7 +261,9 @@ func runDial(t *testing.T, ksc KScenario, res *KResult) {
 			} else {
 				// same transport: with zero-length source connection IDs the socket can only carry one
 				// connection at a time, so let the previous one leave its closing period first - or (Quick) dial at once
-				if sc.Quick {
+				if prev := caps[len(caps)-1]; sc.Quick && prev.err == nil && prev.echoOK {
+					// (only after a connection that ended in the regular way: the half-open server connection a failed dial
+					// leaves behind cannot be told from the next one by an observer when the client uses zero-length IDs)
 					time.Sleep(time.Duration(KMix(sc.Seed, 0x9d1, uint64(di))%30) * time.Millisecond)
 				} else {
 					time.Sleep(3 * time.Second)
